@@ -19,7 +19,7 @@ LEVEL_TEXT = {
     "C07": "Lean 4 theorems: the size constant is ceil(N/8); encoding an over-range value equals encoding its reduction modulo 2^width (no neighbouring bit changes) in the specification, the Python model and the C model; with a buffer of exactly ceil(N/8) bytes and cells of exactly their storage size no modelled access leaves its object (the models raise on any out-of-range index). Tie: real Python and C executed with over-range values, guard zones around buffers and structs, decoders (standard and -O) reading from a buffer that ends exactly at an inaccessible page (a read beyond ceil(N/8) bytes faults and is reported), and the -O masks parsed from generated text.",
     "C08": "Lean 4 theorems about an executable reference of the documented rules (Front.checkProgram): acceptance implies well-formedness of every elaborated message (the hypothesis of C01-C07; C08_text_accept_wf states it for every source TEXT the modelled pipeline accepts), per-rule boundary statements, numeric limits tied to the validators' source by the translator. The iff against the real compiler is established by correspondence: generated valid programs and single-violation mutants (about 28 kinds, boundary values on both sides) must get the same verdict, rule family, file and line from bitproto.parser.parse, the CLI and the reference. Since the text-level model exists (Lex.lex: PLY's rule order, boundaries, lazy errors; Parse.parseText: a predictive parser from grammars.py) the same comparison runs on arbitrary TEXT (repo files and generated programs under character / token mutations, random token sequences, truncations): acceptance always, rule and line unless one side reports a syntactic stop. PLY's automaton itself is not modelled, hence partial.",
     "C09": "Partial. Lean 4 theorems for the places where totality is not by construction: the lexer's index-driven escape loop never raises IndexError nor runs out of steps on anything the token regular expression matches; the expression parser, tokenizer and import recursion never exhaust their fuel (answers independent of fuel beyond 2|tokens|+2, |text|, |files|+1); evaluation ends in a value or one of four parser-error kinds; the text-level models (lexer of the whole token language, grammar) terminate on every text — no fuel bound is ever hit — and number lines correctly; PLY's LALR automaton and the renderers as a whole are not modelled: their totality is explored (five input streams incl. stress inputs, worker pool under an interval timer, real CLI), not proved.",
-    "C10": "Partial. What a theorem can carry is the declaration discipline of the output, not gcc's verdict: Lean 4 theorems that the emission order (children first, siblings in declaration order) emits every definition exactly once, nested definitions before their parent and earlier siblings before later ones — with C08/C11 this is declared-before-use. The toolchains (gcc, g++ with sizeof/offsetof asserts, Python import + instantiate, static Go discipline; no Go toolchain here) run on every generated program as correspondence. Eight known findings of the unchanged tree are listed; three defects repaired.",
+    "C10": "Partial. What a theorem can carry is the declaration discipline of the output, not gcc's verdict: Lean 4 theorems that the emission order (children first, siblings in declaration order) emits every definition exactly once, nested definitions before their parent and earlier siblings before later ones — with C08/C11 this is declared-before-use. The toolchains (gcc, g++ with sizeof/offsetof asserts, Python import + instantiate, static Go discipline; no Go toolchain here) run on every generated program as correspondence. Seven known findings of the unchanged tree are listed (each witness re-confirmed in every run); three defects repaired.",
     "C11": "Lean 4 theorems about the reference resolver (Front.resolve / lookupPath): a simple name resolves to the innermost enclosing scope that declares it, searching outward, only among definitions that closed earlier; dotted paths descend through messages and imports; elaboration uses exactly the resolved definition. Tie: for every generated program with shadowing, dotted paths and imports the elaborated type of every message must agree three ways (real AST, Lean reference, the generator's own resolver).",
     "C12": "Lean 4 theorems: Spec.encode depends only on the normalised type — reordering fields, introducing or eliminating aliases, order-preserving renumbering and their compositions leave the bytes unchanged for every value; field numbers are not on the wire. Tie: rewrite pairs of real programs (reorder, alias in/out, rename, unnest, renumber, const folding incl. negative division) compiled by the real compiler must produce identical bytes in Python and C.",
     "C13": "Lean 4 theorems: the expression parser inverts the printer with minimal parentheses for every expression tree (precedence, left associativity), evaluation is ordinary integer arithmetic with floor division and division by zero a parser error; the emitted integer / boolean / string literals denote the value in the target language's literal grammar (escape is inverted by unescape for every string). Tie: real parser + renderers on generated expression texts and strings over the lexer alphabet; tables tied by the translator. Two defects repaired by fix: commits.",
